@@ -9,6 +9,7 @@ open RedunModel.Script (Str)
    array scratch arrayId (hash*)          -> (s<input> s<output> s<error> s<hashes> (out*) (err*) s<evaltext>)
    elem scratch (hash*) i<n>              -> (i<args> i<kwargs> s<out> s<err>) | !IndexError
    gather ((name id ((cid i<n>)*))*) ((parent (hash*))*)   -> ((hash id)*) | !IndexError
+   gatherq queue prefix ((name id queue STATUS ((cid i<n> STATUS)*))*) ((parent (hash*))*) -> ((hash id)*) | !IndexError
    reunite ((hash id)*) T|F evalhash (aliveId*)            -> (s<id>|none ((hash id)*)) -/
 
 def outS (s : Str) : String := atomOfStr (String.ofList s)
@@ -47,6 +48,23 @@ def inPair : Sexp → Option (Str × Str)
   | .list [a, b] => do pure (← inS a, ← inS b)
   | _ => none
 
+def inStatus : Sexp → Option Status
+  | .atom "SUBMITTED" => some .submitted
+  | .atom "PENDING" => some .pending
+  | .atom "RUNNABLE" => some .runnable
+  | .atom "STARTING" => some .starting
+  | .atom "RUNNING" => some .running
+  | .atom "SUCCEEDED" => some .succeeded
+  | .atom "FAILED" => some .failed
+  | _ => none
+def inQChild : Sexp → Option (Str × Nat × Status)
+  | .list [c, i, st] => do pure (← inS c, ← inN i, ← inStatus st)
+  | _ => none
+def inQJob : Sexp → Option BatchJob
+  | .list [n, i, q, st, ch] => do
+    pure { name := ← inS n, jobId := ← inS i, queue := ← inS q, status := ← inStatus st, children := ← inList inQChild ch }
+  | _ => none
+
 def mkJobs (hashes : List Str) : List (RJob Nat Nat) :=
   (List.range hashes.length).zip hashes |>.map fun (i, h) => { evalHash := h, args := i, kwargs := i }
 
@@ -77,6 +95,13 @@ def step (_ : Unit) (line : String) : Unit × String :=
       | .ok pre => ((), preS pre)
       | .error _ => ((), "!IndexError")
     | _, _ => ((), "bad-value")
+  | some [.atom "gatherq", q, p, js, fs] => match inS q, inS p, inList inQJob js, inList inFile fs with
+    | some q, some p, some js, some fs =>
+      let evalFile : Str → Option (List Str) := fun u => (fs.find? (fun f => f.1 = u)).map (·.2)
+      match gatherQueue evalFile q p js with
+      | .ok pre => ((), preS pre)
+      | .error _ => ((), "!IndexError")
+    | _, _, _, _ => ((), "bad-value")
   | some [.atom "reunite", pre, b, h, alive] => match inList inPair pre, inB b, inS h, inList inS alive with
     | some pre, some b, some h, some alive =>
       let (pre', r) := reunite pre b h (fun id => alive.contains id)
